@@ -4,9 +4,12 @@ API tier: checks/c08_api.py (Lease.tla delegation half on the real authority.Cac
 the resolver's lease arithmetic).  Pipeline tier: checks/c08_pipe.py (LeasePipe.tla
 scenarios played by scripted parent/child authoritative servers against the real
 edns+cache+resolver pipeline; oracle = the referral log the scripted parent served).
+Derived-entry tier: checks/x08al.py (AliasLease.tla: what an alias chase served from
+cache re-publishes must end with the lease of the delegation it was learned through).
 """
 import c08_api
 import c08_pipe
+import x08al
 
 
 def run(ctx, replay):
@@ -14,10 +17,14 @@ def run(ctx, replay):
                        "real authority.Cache + resolver lease helpers under two virtual-clock mechanisms; distinct = "
                        "distinct action sequences; every recorded run validated by Trace_Lease with the property "
                        "invariants evaluated on the observed deadlines")
+    x08al.ONLY = "C08"
     if replay:
         if c08_api.run_replay(ctx, replay):
+            return
+        if x08al.run_replay(ctx, replay):
             return
         if c08_pipe.replay_pipe(ctx, replay):
             return
     c08_api.run_api(ctx)
     c08_pipe.run_pipe(ctx)
+    x08al.run_tier(ctx)
